@@ -1,6 +1,7 @@
 package hx
 
 import (
+	"sync/atomic"
 	"encoding/json"
 	"fmt"
 	"net/url"
@@ -75,6 +76,7 @@ type SkelResult struct {
 	Solver         smt.Stats
 	Elapsed        time.Duration
 	SkelError      string
+	Skipped        bool // not explored: the run stopped early (violations confirmed) or passed its deadline
 	SecondOpinion  int
 	ResolveRefusedParams int
 	sharedTriaged  bool
@@ -102,7 +104,13 @@ func loaderFor(universe map[string]string, counts map[string]int, mu *sync.Mutex
 	return func(uri *url.URL) (*jsonschema.Schema, error) {
 		mu.Lock()
 		counts[uri.String()]++
+		n := counts[uri.String()]
 		mu.Unlock()
+		if n > 8 {
+			// a resolver that keeps re-loading a document would recurse without bound: cut it
+			// here (the repeated request is reported as a finding by the caller)
+			return nil, fmt.Errorf("document %s requested %d times: refusing", uri, n)
+		}
 		text, ok := universe[uri.String()]
 		if !ok {
 			return nil, fmt.Errorf("no document at %s", uri)
@@ -272,10 +280,10 @@ func (w *Worker) RunValidateSkeleton(sk *Skeleton, opt VOptions) *SkelResult {
 		switch v {
 		case VNil:
 			res.SawNil = true
-			bad = ctx.Not(spec)
+			bad = ctx.And(m.NoBadJSONNumber(), ctx.Not(spec))
 		case VErr:
 			res.SawErr = true
-			bad = spec
+			bad = ctx.And(m.NoBadJSONNumber(), spec) // (an unparseable json.Number has no JSON meaning: panics only)
 		case VPanic:
 			bad = ctx.True
 		}
@@ -464,6 +472,49 @@ func trunc(s string, n int) string {
 	return s
 }
 
+// Early stop and deadline. Once StopAfter violations outside the known classes have been
+// confirmed natively the remaining skeletons are not explored (the run fails anyway); past
+// RunDeadline the remaining skeletons are skipped and the run is inconclusive (exit 2).
+var (
+	runStart     = time.Now()
+	RunDeadline  time.Duration
+	StopAfter    int32 = 6
+	newFindings  int32
+	knownClasses map[string]bool
+	knownOnce    sync.Once
+)
+
+func shouldStop() bool {
+	if atomic.LoadInt32(&newFindings) >= StopAfter {
+		return true
+	}
+	return RunDeadline > 0 && time.Since(runStart) > RunDeadline
+}
+
+func noteFindings(s *SkelResult) {
+	if s == nil || len(s.Findings) == 0 {
+		return
+	}
+	knownOnce.Do(func() {
+		knownClasses = map[string]bool{}
+		ks, _ := LoadKnown()
+		for _, k := range ks {
+			if k.Status == "known" {
+				knownClasses[k.Property+"/"+k.Class] = true
+			}
+		}
+	})
+	for _, f := range s.Findings {
+		cl := f.Class
+		if cl == "" {
+			cl = ClassifyFinding(f)
+		}
+		if cl == "" || !knownClasses[f.Property+"/"+cl] {
+			atomic.AddInt32(&newFindings, 1)
+		}
+	}
+}
+
 // RunSkeletons runs fn over all skeletons on a pool of workers.
 func RunSkeletons(p *sx.Program, skels []*Skeleton, workers int, timeoutMs int, fn func(w *Worker, sk *Skeleton) *SkelResult) ([]*Skeleton, []*SkelResult) {
 	if only := os.Getenv("SYMGO_ONLY"); only != "" {
@@ -489,7 +540,12 @@ func RunSkeletons(p *sx.Program, skels []*Skeleton, workers int, timeoutMs int, 
 			defer w.Close()
 			for idx := range ch {
 				t0 := time.Now()
+				if shouldStop() {
+					out[idx] = &SkelResult{Skeleton: skels[idx].Name, Skipped: true}
+					continue
+				}
 				out[idx] = fn(w, skels[idx])
+				noteFindings(out[idx])
 				if os.Getenv("SYMGO_PROGRESS") != "" {
 					fmt.Fprintf(os.Stderr, "progress: %s paths=%d %.1fs\n", skels[idx].Name, out[idx].Paths, time.Since(t0).Seconds())
 				}
